@@ -98,6 +98,12 @@ def oracle(scn, trace):
             continue
         o = end["out"]
         if injected:
+            # strategy and sleeper are only ever invoked by the retry loop: an error they raised must have left
+            # execute() (the classifier is also consulted on the breaker's behalf, where an error is absorbed by design)
+            lost = [e for e in injected if e["site"] in ("strategy", "sleeper")]
+            if lost:
+                out.append(V("R1", f"error raised by the caller's {lost[0]['site']} did not propagate out of execute()",
+                             {"call": cid, "entry": ent, "fault": lost[0]["exc"], "out": {k: v for k, v in o.items() if k != "timeline"}}))
             continue
         if rejected(cf):
             if o["ok"] or o["attempts"] != 0 or o["last_exception_type"] != "CircuitOpenError" or cf.attempts:
